@@ -18,7 +18,7 @@ POLVEC = {
     "L": np.array([1, -1j], dtype=complex) / np.sqrt(2),
 }
 
-RENORM_FOCK = {"Creation": True, "Annihilation": True, "Squeeze": True,
+RENORM_FOCK = {"FLower": False, "FLowerX": False, "Creation": True, "Annihilation": True, "Squeeze": True,
                "PhaseShift": False, "Displace": False, "FIdentity": False, "FCustom": False, "FExpr": False}
 
 
@@ -155,6 +155,8 @@ class Model:
                 return embed_multi(OT.fixed_unitary(di, p.get("tag", 1)), [di], [d], unitary_fill=True), False
             if name == "FExpr":
                 return np.diag(np.exp(1j * float(p.get("t", 0.7)) * np.arange(d))), False
+            if name in ("FLower", "FLowerX"):
+                return OT.destroy(d), False
         if name in CUST1:
             d = rd[0]
             if name == "QCustom":
@@ -256,7 +258,12 @@ class Model:
             op, _ = self.ref_operator(name, params, targets, world.impl_dims(targets))
             if op is None:
                 return False
-            if name in ("Annihilation", "PCustom", "QCustom") and R.would_vanish(op, targets):
+            if name in ("Annihilation", "PCustom", "QCustom", "FLower", "FLowerX") and R.would_vanish(op, targets):
+                return False
+            if name in ("FLower", "FLowerX"):
+                # a non-unitary operator through a non-renormalising type is only issued as a fault probe
+                return False
+            if name == "FLower" and world.fock_dim(targets[0]) <= 0:
                 return False
             return True
         if kind == "kraus":
